@@ -97,6 +97,16 @@ def lines_texts(rng, n, big):
     return out
 
 
+def lines_json(rng, n):
+    """mmJSON: the reader assigns to every item the content of its JSON value; write_mmjson -> read_mmjson_insitu"""
+    out = []
+    for _ in range(n):
+        js, dump = F.gen_mmjson(rng)
+        out.append('o_json\t%s | %s' % (F.hx(js), dump))
+        out.append('o_mmjson\t' + F.dom_tokens(F.gen_mmcif_dom(rng)))
+    return out
+
+
 def lines_buf(rng, n):
     return ['buf\t' + F.gen_buf_ops(rng) for _ in range(n)]
 
@@ -186,6 +196,8 @@ def bucket_of(p):
     cmd, args, res = p
     if cmd == 'o_rt':
         return 'o_rt:level%s:%s' % (args[0], 'skip' if res == 'skip' else 'roundtrip')
+    if cmd in ('o_json', 'o_mmjson'):
+        return cmd
     if cmd in ('write', 'o_dom'):
         w = args.split(' ', 6)
         off = 1 if cmd == 'o_dom' else 0
@@ -201,6 +213,7 @@ def run(chk):
     chk.trusted += ['translator gen/dump_chartable.cpp (char_table used by the quote/lexer theorems)',
                     'extraction (ExtrOcamlBasic only; Z kept as Coq Z) + extract/cif_drv.ml',
                     'harness/h_cif.cpp built from the repo with ASan+UBSan (reads BufOstream::ptr via a private->public define)',
+                    'sajson and the mmJSON writer/reader are not modelled (oracles o_json / o_mmjson on the implementation only)',
                     'PEGTL (cif.hpp grammar engine) and std::ostream are not modelled: whole-document parsing is covered by the '
                     'round-trip oracle on the implementation, value-level lexing by the Coq model of the five value rules']
     chk.assumptions += ['byte strings are lists of codes 0..255; std::string sizes are unbounded integers in the model',
@@ -212,7 +225,7 @@ def run(chk):
                         '(exact side condition proved in C01_quote_as_string_exact)']
     proved = chk.prove()
     h, d = F.harness(), F.driver()
-    reps = 1 if quick else 12
+    reps = 1 if quick else 8
     for rep in range(reps):
         lines = []
         if rep == 0:
@@ -222,6 +235,7 @@ def run(chk):
         lines += lines_texts(rng, 700 if quick else 8000, big=True)
         lines += lines_buf(rng, 400 if quick else 5000)
         lines += F.gen_lex_inputs(rng, 4000 if quick else 60000)
+        lines += lines_json(rng, 500 if quick else 8000)
         res = vlib.correspond(chk, h, d, lines, timeout=900 if quick else 3000)
         for l in res['outputs']:
             p = l.split('\t')
@@ -258,7 +272,7 @@ def run(chk):
                 'text fields with CR-LF / lone CR, empty loops, frames, comments, erased, several blocks, arbitrary byte values) x '
                 'options (3 booleans x widths {0,1,33,34,120,511,512,513,3584,4095,65535} + random), byte-exact; '
                 'buf: BufOstream op sequences, ptr-buf after every op + output; lex: the value rule of cif.hpp (through PEGTL) on raw values + tails, mutations, keyword spellings, both bol states (OK length / NO / ERR); oracles o_q/o_dom/o_rt on gemmi at check levels 0/1/2 '
-                'for generated texts, mutated tests/*.cif windows and generated DOMs. non-trivial = not rejected, input > 20 chars')
+                'for generated texts, mutated tests/*.cif windows and generated DOMs; o_json (generated mmJSON with strings, numbers, null, booleans, arrays: every item gets the content of its JSON value) and o_mmjson (write_mmjson -> read_mmjson_insitu on mmCIF-shaped DOMs, string values and ?). non-trivial = not rejected, input > 20 chars')
     if not proved:
         chk.violate('proof', 'Properties_C01 ' + ','.join(getattr(chk, 'failed_theorems', [])),
                     getattr(chk, 'coq_log_tail', ''), found_input=False)
